@@ -53,6 +53,13 @@ def secStep (s : Section) (op : Array Json) : Except String (Section × Json) :=
       | some d =>
         let (it, s') := s.getWithItem m d add
         pure (s', Json.arr #[jstr it.orig, jstr it.session, jstr it.value])
+  | "slice" => do
+    -- section[a:b:c] : positions of the returned items in the (unchanged) section
+    let gi (j : Json) : Except String (Option Int) := if j.isNull then pure none else do pure (some (← j.getInt?))
+    let a ← gi op[1]!; let b ← gi op[2]!; let c ← (op[3]!).getInt?
+    match s.getSlice a b c with
+    | some l => pure (s, Json.arr (l.map fun n => Json.num (JsonNumber.fromNat n)).toArray)
+    | none => pure (s, Json.str "ValueError")
   | "setattr" => do
     let k ← getS op[1]!; let v ← getS op[2]!
     pure (s.setAttrValue k v, Json.str "ok")
